@@ -1050,7 +1050,63 @@ func stressOps(seed int64, d time.Duration) int {
 	worker(func(i int) { _, _ = b.Append(ctx, []byte(fmt.Sprintf("b%d", i)), nil) })
 	worker(func(i int) { _, _ = a.Join(b, -1) })
 	worker(func(i int) { _, _ = b.Join(a, -1) })
-	worker(func(i int) { _ = a.Values().Len() })
+	// semantic checks on what the free-running readers observe (printed as SEMANTIC VIOLATION, at most a few)
+	var vmu sync.Mutex
+	violations := 0
+	violate := func(format string, args ...interface{}) {
+		vmu.Lock()
+		defer vmu.Unlock()
+		violations++
+		if violations <= 5 {
+			fmt.Printf("SEMANTIC VIOLATION: "+format+"\n", args...)
+		}
+	}
+	// heads = the values nothing among the values points to; every predecessor of a value is a value
+	checkView := func(what string, heads []cid.Cid, values []iface.IPFSLogEntry) {
+		in := map[string]bool{}
+		named := map[string]bool{}
+		for _, v := range values {
+			in[v.GetHash().String()] = true
+		}
+		for _, v := range values {
+			for _, n := range v.GetNext() {
+				named[n.String()] = true
+				if !in[n.String()] {
+					violate("%s: a value's predecessor is not among the values (%d values)", what, len(values))
+					return
+				}
+			}
+		}
+		hs := map[string]bool{}
+		for _, h := range heads {
+			hs[h.String()] = true
+			if !in[h.String()] || named[h.String()] {
+				violate("%s: a head is not an unreferenced value (%d heads, %d values)", what, len(heads), len(values))
+				return
+			}
+		}
+		for _, v := range values {
+			if !named[v.GetHash().String()] && !hs[v.GetHash().String()] {
+				violate("%s: an unreferenced value is not a head (%d heads, %d values)", what, len(heads), len(values))
+				return
+			}
+		}
+	}
+	worker(func(i int) {
+		vs := a.Values().Slice()
+		in := map[string]bool{}
+		for _, v := range vs {
+			in[v.GetHash().String()] = true
+		}
+		for _, v := range vs {
+			for _, n := range v.GetNext() {
+				if !in[n.String()] {
+					violate("Values(): a value's predecessor is missing (%d values)", len(vs))
+					return
+				}
+			}
+		}
+	})
 	worker(func(i int) { _ = a.Heads().Len(); _ = a.RawHeads().Len() })
 	worker(func(i int) { _ = a.Len(); _ = a.GetEntries().Len() })
 	worker(func(i int) {
@@ -1059,7 +1115,11 @@ func stressOps(seed int64, d time.Duration) int {
 			_ = a.Has(e.GetHash())
 		}
 	})
-	worker(func(i int) { _ = a.ToSnapshot(); _ = a.ToJSONLog() })
+	worker(func(i int) {
+		sn := a.ToSnapshot()
+		checkView("ToSnapshot()", sn.Heads, sn.Values)
+		_ = a.ToJSONLog()
+	})
 	worker(func(i int) { _, _ = a.ToMultihash(ctx) })
 	worker(func(i int) {
 		ch := make(chan iface.IPFSLogEntry, 1<<16)
@@ -1077,6 +1137,18 @@ func stressOps(seed int64, d time.Duration) int {
 	time.Sleep(d)
 	close(stop)
 	wg.Wait()
+	// quiescent: the final state of both logs is consistent
+	for name, l := range map[string]*ipfslog.IPFSLog{"a": a, "b": b} {
+		var hs []cid.Cid
+		for _, h := range l.Heads().Slice() {
+			hs = append(hs, h.GetHash())
+		}
+		vs := l.Values().Slice()
+		checkView("final state of "+name, hs, vs)
+		if len(vs) != l.Len() {
+			violate("final state of %s: %d values but %d entries", name, len(vs), l.Len())
+		}
+	}
 	return total
 }
 
